@@ -327,6 +327,27 @@ theorem managed_after_reload (evs : List Ev) :
     requiredOK st.cur st.all st.managed = true :=
   requiredOK_of_inv _ (inv_run evs {} inv_init)
 
+/-- In-flight transactions (the un-manage delay is tied to the retention of the policies versions): for EVERY
+    history, whenever the engine still serves transaction `id` from the version it was anchored to (`txnView` =
+    within `ttl` of its anchoring and of the update that superseded that version, and not voided by an immediate
+    un-manage, which the fail-safe reverts choose by design), the proxy still manages everything that version
+    requires — at every instant of the interval, so the response leg reaches the engine. -/
+theorem anchored_transaction_managed (evs : List Ev) (id : String) (req : Req)
+    (hv : txnView (run .stamped {} evs) id = some req) :
+    requiredOK req (run .stamped {} evs).all (run .stamped {} evs).managed = true :=
+  txnView_managed _ (invT_run evs {} invT_init) id req hv
+
+/-- Non-vacuity: a transaction anchored before an update that removes its endpoint is still served — and its
+    endpoint still managed — 29 999 ms later; one ms later the un-manage has fired and the anchor has lapsed. -/
+example :
+    let a : Req := ⟨false, ["GET:::a\\.com/x$", "POST:::a\\.com/y$"]⟩
+    let b : Req := ⟨false, ["POST:::a\\.com/y$"]⟩
+    let st := run .stamped {} [.reload a, .txn "t1", .reload b, .advance 29999]
+    let st' := run .stamped {} [.reload a, .txn "t1", .reload b, .advance 30000]
+    txnView st "t1" = some a ∧ st.managed.contains "GET:::a\\.com/x$" = true ∧
+    txnView st' "t1" = none ∧ st'.managed.contains "GET:::a\\.com/x$" = false := by
+  decide
+
 /-- The un-manage a reload schedules is by MEMBERSHIP of the expression text, not by counting entries: an
     expression the new request still contains — whatever its multiplicity before and after (one entry per enabled
     plugin: `r=1,1` → `r=1,0`) — is in none of the jobs this reload adds.  (`managed_after_reload` then covers what
